@@ -3,6 +3,7 @@
    (4) JSON value <-> tree layer. *)
 From Coq Require Import List NArith ZArith Bool.
 From V.C14 Require Import WireModel WireSpec WireLemmas WireProofs.
+From V.C14 Require Import BytesModel BytesSpec BytesProofs.
 Import ListNotations.
 Open Scope N_scope.
 
@@ -47,3 +48,50 @@ Print Assumptions consumes_all.
 Theorem depth_honoured : forall o d fs, parse_fields o 0 d = Ok fs -> nest fs + 1 <= o_max o.
 Proof. exact depth_honoured_l. Qed.
 Print Assumptions depth_honoured.
+
+(* ====================================================================== (2) base64 / hex / URL *)
+(* "the matching decoder inverts it exactly", over all byte strings *)
+Theorem base64_roundtrip : forall s, bytes_ok s -> base64_decode (base64_encode s) = Some s.
+Proof. exact base64_roundtrip_l. Qed.
+Print Assumptions base64_roundtrip.
+
+Theorem urlencode_roundtrip : forall s, bytes_ok s -> urldecode (urlencode s) = s.
+Proof. exact urlencode_roundtrip_l. Qed.
+Print Assumptions urlencode_roundtrip.
+
+Theorem rawurlencode_roundtrip : forall s, bytes_ok s -> rawurldecode (rawurlencode s) = s.
+Proof. exact rawurlencode_roundtrip_l. Qed.
+Print Assumptions rawurlencode_roundtrip.
+
+(* bin2hex has no decoder in the standard library; the reference hex decoder reads it back *)
+Theorem bin2hex_roundtrip : forall s, bytes_ok s -> hex_decode (bin2hex s) = Some s.
+Proof. exact bin2hex_roundtrip_l. Qed.
+Print Assumptions bin2hex_roundtrip.
+
+(* "emits output that the format's reference implementation reads": the output is a text of the
+   format — RFC 4648 base64 with padding, lower-case hex of twice the length, RFC 3986
+   percent-encoding (only unreserved characters and %HH), form encoding (the same plus '+') *)
+Theorem base64_text : forall s, bytes_ok s ->
+  b64_text (base64_encode s) /\ length (base64_encode s) = (4 * ((length s + 2) / 3))%nat.
+Proof. exact base64_text_len_l. Qed.
+Print Assumptions base64_text.
+
+Theorem bin2hex_alphabet : forall s, bytes_ok s ->
+  Forall hex_lower_digit (bin2hex s) /\ length (bin2hex s) = (2 * length s)%nat.
+Proof. exact bin2hex_alphabet_l. Qed.
+Print Assumptions bin2hex_alphabet.
+
+Theorem rawurlencode_rfc3986 : forall s, bytes_ok s -> pct_text false (rawurlencode s).
+Proof. exact rawurlencode_rfc3986_l. Qed.
+Print Assumptions rawurlencode_rfc3986.
+
+Theorem urlencode_form_text : forall s, bytes_ok s -> pct_text true (urlencode s).
+Proof. exact urlencode_form_text_l. Qed.
+Print Assumptions urlencode_form_text.
+
+(* decoders: base64_decode / urldecode / rawurldecode are total functions of the input (no fuel,
+   no partial operation in the model); every percent-encoded text is decoded without falling
+   back to "return the input unchanged" *)
+Theorem pct_text_decodes : forall plus t, pct_text plus t -> exists s, unescape plus t = Some s.
+Proof. exact pct_text_decodes_l. Qed.
+Print Assumptions pct_text_decodes.
